@@ -264,7 +264,66 @@ fn is_perm(a: &[J], b2: &[J]) -> bool {
     true
 }
 
+/// One search that calls a by-function many times (17..80 calls, most of them on empty arrays,
+/// inside a projection or under `map`): each call's value is the one the function defines,
+/// however many calls came before it in the same search.
+fn many_small_calls(src: &mut Src, st: &mut Stats) -> CaseResult {
+    let n = 17 + src.below(64);
+    let xs: Vec<J> = (0..n)
+        .map(|i| {
+            let m = if src.chance(170) { 0 } else { 1 + src.below(3) };
+            J::Arr(
+                (0..m)
+                    .map(|k| {
+                        let mut o = BTreeMap::new();
+                        o.insert("k".to_string(), J::int(((i * 7 + k * 3) % 11) as i64 * 10 + k as i64));
+                        o.insert("id".to_string(), J::int((i * 10 + k) as i64));
+                        J::Obj(o)
+                    })
+                    .collect(),
+            )
+        })
+        .collect();
+    let mut doc = BTreeMap::new();
+    doc.insert("xs".to_string(), J::Arr(xs));
+    let doc = J::Obj(doc);
+    let text = *src.pick(&[
+        "xs[*].max_by(@, &k)",
+        "xs[*].min_by(@, &k)",
+        "map(&max_by(@, &k), xs)",
+        "xs[*].sort_by(@, &k)",
+        "xs[*].max_by(@, &k).id",
+        "map(&min_by(@, &k).id, xs)",
+        "xs[*].[max_by(@, &k), min_by(@, &k)]",
+        "map(&map(&k, @), xs)",
+        "xs[*].sort_by(@, &k)[*].id",
+        "map(&length(sort_by(@, &id)), xs)",
+        "[xs[*].max_by(@, &k), xs[*].min_by(@, &id)]",
+    ]);
+    let dt = doc.to_json();
+    st.eval();
+    let tree = match crate::refparse::parse(text, crate::refparse::Mode::Strict) {
+        Ok(t) => t,
+        Err(e) => return Err(Failure::new("direct", "harness-bad-expr", e.msg, json!({"expression": text}))),
+    };
+    let mut cx = refeval::Ctx::default();
+    let want = refeval::eval(&tree, &doc, &mut cx);
+    let got = search_text(text, &dt);
+    let ok = match (&want, &got) {
+        (Ok(w), ImpOut::Ok(g)) => g.deep_eq(w),
+        _ => false,
+    };
+    if !ok {
+        return Err(Failure::new("direct", "many-calls-in-one-search-wrong", format!("gave {} expected {:?}", got.brief(), want.map(|w| w.to_json())), json!({"expression": text, "document": dt})));
+    }
+    st.class("direct:many-small-calls");
+    Ok(())
+}
+
 fn direct(src: &mut Src, st: &mut Stats, _env: &Env) -> CaseResult {
+    if src.chance(10) {
+        return many_small_calls(src, st);
+    }
     let sig = &SIGS[src.below(SIGS.len())];
     let (d, trees) = build_direct(src, sig);
     let tree = crate::refast::RefExpr::Call(d.name.to_string(), trees);
